@@ -701,6 +701,8 @@ def find_anchor(sf, lo_off, hi_off, anchor, nth, what):
     """Find nth occurrence of anchor text (whitespace-insensitive token sequence match) inside
     [lo_off,hi_off).  Returns (start_off, end_off)."""
     atoks = [t.text for t in lex(anchor)]
+    if not atoks:
+        raise UnitSyntaxError(f"{what}: anchor {anchor!r} has no tokens (comments cannot be anchors)")
     a, b = tok_range(sf, lo_off, hi_off)
     toks = sf.toks
     count = 0
@@ -1090,6 +1092,11 @@ def apply_edits_multi(sf, lo, hi, edits, multi):
     """Like apply_edits but also supports multi-segment insertions."""
     # convert multi insertions into placeholder edits
     allp = []
+    # an automatic rewrite (N6, N7, N10 ...) that lies wholly inside a larger replaced region (O1, T4, T5) is subsumed by it
+    big = [(e.start, e.end) for e in edits if e.end > e.start]
+    def subsumed(e):
+        return any(s <= e.start and e.end <= t and (t - s) > (e.end - e.start) and not (e.start == e.end and (e.start == s or e.end == t)) for s, t in big)
+    edits = [e for e in edits if not subsumed(e)]
     for e in edits:
         allp.append((e.start, e.end, e.prio, "e", e))
     for off, segs, prio in multi:
